@@ -58,6 +58,7 @@ type Term struct {
 	Name string // var name
 	Hard bool   // contains division/remainder by a symbolic divisor or symbolic*symbolic multiplication
 	HardC bool  // contains division/remainder by a constant (not a power of two)
+	HasUF bool  // contains an uninterpreted function application (CRC fold)
 }
 
 type argKey struct {
@@ -198,6 +199,7 @@ func (tt *TermTable) mk(op Op, w uint8, i1, i2 uint8, a0, a1, a2 *Term) *Term {
 	if !t.HardC {
 		t.HardC = (a0 != nil && a0.HardC) || (a1 != nil && a1.HardC) || (a2 != nil && a2.HardC)
 	}
+	t.HasUF = op == OpUF || (a0 != nil && a0.HasUF) || (a1 != nil && a1.HasUF) || (a2 != nil && a2.HasUF)
 	tt.m[k] = t
 	return t
 }
@@ -344,6 +346,18 @@ func (tt *TermTable) Eq(a, b *Term) *Term {
 		return tTrue
 	}
 	if a.Op == OpConst && b.Op == OpConst {
+		return tFalse
+	}
+	// The CRC fold is modelled as a collision-free function (stated assumption): two folds are equal exactly
+	// when their table, state and byte arguments are, and a fold never equals a constant.
+	if a.Op == OpUF && b.Op == OpUF && a.Imm1 == b.Imm1 {
+		r := tTrue
+		for i := 0; i < 3 && a.A[i] != nil && b.A[i] != nil; i++ {
+			r = tt.And(r, tt.Eq(a.A[i], b.A[i]))
+		}
+		return r
+	}
+	if (a.Op == OpUF && b.Op == OpConst) || (b.Op == OpUF && a.Op == OpConst) {
 		return tFalse
 	}
 	if a.W == 0 {
